@@ -46,6 +46,11 @@ fn opname(op: &Op) -> String {
         Op::RecvT0 => "recv_timeout0".into(),
         Op::RecvAsync => "recv_async".into(),
         Op::RecvPollDrop => "recv_fut_poll_drop".into(),
+        Op::RecvBatch(_) => "recv_batch".into(),
+        Op::TryRecvBatch(_) => "try_recv_batch".into(),
+        Op::RecvTLong => "recv_timeout_long".into(),
+        Op::CloseTx => "close_tx".into(),
+        Op::CloseRx => "close_rx".into(),
         o => format!("{:?}", o).to_lowercase(),
     }
 }
@@ -62,7 +67,7 @@ struct SendRec<'a> {
 }
 
 fn is_recv(op: &Op) -> bool {
-    matches!(op, Op::Recv | Op::TryRecv | Op::RecvT0 | Op::RecvAsync | Op::RecvPollDrop)
+    matches!(op, Op::Recv | Op::TryRecv | Op::RecvT0 | Op::RecvAsync | Op::RecvPollDrop | Op::RecvBatch(_) | Op::TryRecvBatch(_) | Op::RecvTLong)
 }
 
 pub fn check_channel(sc: &ChanScen, _shape: &str) {
@@ -117,31 +122,37 @@ pub fn check_channel(sc: &ChanScen, _shape: &str) {
     // ---- collect receives
     struct RecvRec<'a> {
         o: &'a OpRec,
-        val: Option<Id>,
+        /// values obtained, in the order the operation returned them
+        vals: Vec<Id>,
     }
     let mut recvs: Vec<RecvRec> = Vec::new();
     for o in &ops {
         if is_recv(&o.op) {
-            let val = if let Res::Val(v) = o.res { Some(v) } else { None };
-            recvs.push(RecvRec { o, val });
+            let vals = match &o.res {
+                Res::Val(v) => vec![*v],
+                Res::Vals(v) => v.clone(),
+                _ => vec![],
+            };
+            recvs.push(RecvRec { o, vals });
         }
     }
     // oneshot: `send(self)` consumes the handle, which is dropped inside the call (our own DropTx entry of that
     // handle comes later and refers to an empty wrapper)
     let oneshot = fl == crate::chan::Flavour::Oneshot;
+    // a handle counts as going away from the moment its drop or its close() is called
     let n_tx_drops_before = |pos: usize| {
         if oneshot {
-            (0..sc.n_tx).filter(|h| ops.iter().any(|o| o.h == *h && o.call < pos && matches!(o.op, Op::DropTx | Op::Send(_) | Op::TrySend(_)))).count()
+            (0..sc.n_tx).filter(|h| ops.iter().any(|o| o.h == *h && o.call < pos && matches!(o.op, Op::DropTx | Op::CloseTx | Op::Send(_) | Op::TrySend(_)))).count()
         } else {
-            ops.iter().filter(|o| o.op == Op::DropTx && o.call < pos).count()
+            (0..sc.n_tx).filter(|h| ops.iter().any(|o| o.h == *h && o.call < pos && matches!(o.op, Op::DropTx | Op::CloseTx))).count()
         }
     };
-    let n_rx_drops_before = |pos: usize| ops.iter().filter(|o| o.op == Op::DropRx && o.call < pos).count();
+    let n_rx_drops_before = |pos: usize| (0..sc.n_rx).filter(|h| ops.iter().any(|o| o.h == *h && o.call < pos && matches!(o.op, Op::DropRx | Op::CloseRx))).count();
 
     // ---- C01 exactly once
     let mut seen: BTreeMap<Id, &OpRec> = BTreeMap::new();
     for r in &recvs {
-        if let Some(v) = r.val {
+        for &v in &r.vals {
             let sender = sends.iter().find(|s| s.ids.contains(&v));
             match sender {
                 None => oracle_fail("C01", "phantom_value", &opname(&r.o.op), &format!("received {} which no send carried", v)),
@@ -174,7 +185,7 @@ pub fn check_channel(sc: &ChanScen, _shape: &str) {
         for s in &sends {
             for id in &s.ok {
                 if !seen.contains_key(id) {
-                    let others: Vec<String> = recvs.iter().filter(|r| r.val.is_none()).map(|r| format!("{}->{:?}", opname(&r.o.op), r.o.res)).collect();
+                    let others: Vec<String> = recvs.iter().filter(|r| r.vals.is_empty()).map(|r| format!("{}->{:?}", opname(&r.o.op), r.o.res)).collect();
                     oracle_fail(
                         "C01",
                         "lost_value",
@@ -190,7 +201,7 @@ pub fn check_channel(sc: &ChanScen, _shape: &str) {
     for rh in 0..sc.n_rx {
         let mut last: BTreeMap<u32, Id> = BTreeMap::new();
         for r in recvs.iter().filter(|r| r.o.h == rh) {
-            if let Some(v) = r.val {
+            for &v in &r.vals {
                 let prod = v / 10;
                 if let Some(prev) = last.get(&prod) {
                     if *prev >= v {
@@ -212,7 +223,7 @@ pub fn check_channel(sc: &ChanScen, _shape: &str) {
                 }
                 let pos = s.o.ret;
                 let sent: usize = sends.iter().filter(|x| x.o.ret <= pos).map(|x| x.ok.len()).sum();
-                let taken = recvs.iter().filter(|r| r.val.is_some() && r.o.call < pos).count();
+                let taken: usize = recvs.iter().filter(|r| r.o.call < pos).map(|r| r.vals.len()).sum();
                 if sent > taken + cap {
                     oracle_fail(
                         "C03",
@@ -229,7 +240,7 @@ pub fn check_channel(sc: &ChanScen, _shape: &str) {
             // older value under the C11 model loom explores — a late Full there is not a defect.
             for s in sends.iter().filter(|s| s.full) {
                 let others: usize = sends.iter().filter(|x| !std::ptr::eq(x.o, s.o) && x.o.call < s.o.ret).map(|x| x.ids.len()).sum();
-                let taken = recvs.iter().filter(|r| r.val.is_some() && r.o.ret < s.o.call && r.o.t == s.o.t).count();
+                let taken: usize = recvs.iter().filter(|r| r.o.ret < s.o.call && r.o.t == s.o.t).map(|r| r.vals.len()).sum();
                 if others < taken + cap {
                     oracle_fail(
                         "C03",
@@ -292,7 +303,7 @@ pub fn check_channel(sc: &ChanScen, _shape: &str) {
                 }
             }
             for later in recvs.iter().filter(|x| x.o.h == r.o.h && x.o.call > r.o.ret) {
-                if let Some(v) = later.val {
+                if let Some(&v) = later.vals.first() {
                     oracle_fail("C04", "value_after_disconnected", &opname(&later.o.op), &format!("receiver R{} obtained {} after it had observed Disconnected", r.o.h, v));
                 }
             }
